@@ -143,5 +143,8 @@ class Check(PropertyCheck):
         texts = [gen_case(self.rng, k) for k in range(n)]
         return self.oracle(texts)
 
+    def oracle_on_texts(self, texts):
+        return self.oracle(texts)
+
     def replay_case(self, case):
         return self.oracle([case["input"]])
